@@ -76,6 +76,10 @@ func init() {
 								pol = "all"
 							}
 							cs = append(cs, fw.Case{ID: fmt.Sprintf("native/%s/%s/k=%s", name, l.Path, k), Kind: "nc", P: map[string]any{"inst": name, "path": l.Path, "k": k, "face": "native", "pol": pol, "leafkind": l.Kind}})
+							// the 4-public-value wrapper must enforce the same canonicity (circuit A only)
+							if name[0] == 'A' && (seen[l.Kind] == 1 || (!ctx.Quick && (n+ki)%4 == 0)) {
+								cs = append(cs, fw.Case{ID: fmt.Sprintf("native-fixed/%s/%s/k=%s", name, l.Path, k), Kind: "nc", P: map[string]any{"inst": name, "path": l.Path, "k": k, "face": "native", "pol": "fallback", "leafkind": l.Kind, "wrapper": "fixed"}})
+							}
 							if seen[l.Kind] == 1 || (!ctx.Quick && n%40 == 0) {
 								cs = append(cs, fw.Case{ID: fmt.Sprintf("plain/%s/%s/k=%s", name, l.Path, k), Kind: "nc", P: map[string]any{"inst": name, "path": l.Path, "k": k, "face": "plain", "pol": "all", "leafkind": l.Kind}})
 							}
@@ -125,15 +129,38 @@ func init() {
 					for _, cand := range c06LimbCandidates(nv) {
 						pols = append(pols, limbPolicy{nv, cand})
 					}
+					if face == engine.Plain {
+						// forged bit decompositions: a non-boolean first digit for an oversized limb
+						hi := new(big.Int).Rsh(nv, 32)
+						lo := new(big.Int).And(nv, big.NewInt(0xFFFFFFFF))
+						pols = append(pols, multiPolicy{limbPolicy{nv, []*big.Int{big.NewInt(0), nv}}, bitsPolicy{nv}})
+						if hi.Sign() > 0 {
+							lo2 := new(big.Int).Add(lo, pow2(32))
+							pols = append(pols, multiPolicy{limbPolicy{nv, []*big.Int{new(big.Int).Sub(hi, big.NewInt(1)), lo2}}, bitsPolicy{lo2}})
+						}
+						if hi.BitLen() > 32 {
+							pols = append(pols, multiPolicy{limbPolicy{nv, []*big.Int{hi, lo}}, bitsPolicy{hi}})
+						}
+					}
 				}
+				fixed := c.Str("wrapper") == "fixed"
 				for pi, pol := range pols {
-					res := runVerifier(in, engine.Options{Face: face, Policy: pol})
+					var res engine.Result
+					if fixed {
+						res = harnRunOpt(engine.Options{Face: face, Policy: pol}, in.CircuitFixed().Define)
+					} else {
+						res = runVerifier(in, engine.Options{Face: face, Policy: pol})
+					}
 					o.Events += events(res)
 					if io, bad := inconclusiveIf(res); bad {
 						return io
 					}
 					if res.Verdict == engine.Accept {
-						return fw.Violate("accepts_noncanonical:"+c.Str("leafkind"), fmt.Sprintf("case %s: value %s -> %s accepted (hint policy #%d, face %s)", c.ID, v, nv, pi, face))
+						w := ""
+						if fixed {
+							w = "CircuitFixed:"
+						}
+						return fw.Violate("accepts_noncanonical:"+w+c.Str("leafkind"), fmt.Sprintf("case %s: value %s -> %s accepted (hint policy #%d, face %s)", c.ID, v, nv, pi, face))
 					}
 					if pi == 0 {
 						o.Inc("site[" + c.Str("leafkind") + "]=" + res.Kind + "@" + shortSite(res.Site))
